@@ -32,6 +32,7 @@ type Program struct {
 type Scenario struct {
 	Progs      []Program      `json:"progs"`
 	SharedCode bool           `json:"shared_code"` // all contexts run ONE compiled code object (program 0)
+	RelPaths   bool           `json:"rel_paths,omitempty"` // every context has sys.path ["."] and runs its program from a file in its own directory
 	Policy     string         `json:"policy"`
 	PNum       int            `json:"pnum"`
 	Depth      int            `json:"depth"`
@@ -221,6 +222,12 @@ func libOf(c int) (dir, marker string) {
 	return fmt.Sprintf("/simcwd/lib%d", c%2), fmt.Sprintf("init%d", c%2)
 }
 
+// relative mode: identical sys.path ["."] everywhere, the program is a file in
+// the context's own project directory and imports resolve relative to it
+func projOf(c int) (dir, marker string) {
+	return fmt.Sprintf("/simcwd/proj%d", c), fmt.Sprintf("proj%d", c)
+}
+
 func (Engine) Gen(seed uint64, idx int, tier string) interface{} {
 	r := simrt.NewRand(simrt.Mix(seed, 0x08, uint64(idx)))
 	excl := harness.Excluded("isolation")
@@ -240,6 +247,9 @@ func (Engine) Gen(seed uint64, idx int, tier string) interface{} {
 	for c := 0; c < n; c++ {
 		var p Program
 		ns := 4 + r.Intn(14)
+		if r.Chance(1, 6) {
+			ns = 45 + r.Intn(40) // long module body: line tables, constant tables beyond small-size thresholds
+		}
 		for i := 0; i < ns; i++ {
 			loc := hot[r.Intn(len(hot))]
 			if r.Chance(1, 4) {
@@ -260,6 +270,7 @@ func (Engine) Gen(seed uint64, idx int, tier string) interface{} {
 		sc.Progs = append(sc.Progs, p)
 	}
 	sc.SharedCode = r.Chance(1, 5)
+	sc.RelPaths = !sc.SharedCode && r.Chance(1, 4)
 	switch r.Intn(4) {
 	case 0:
 		sc.Policy, sc.PNum = "random", 1+r.Intn(60)
@@ -419,7 +430,7 @@ type ctxOut struct {
 	exc   string
 }
 
-func runProgram(src string, code *py.Code, lib string) (o ctxOut) {
+func runProgram(src string, code *py.Code, lib string, file string) (o ctxOut) {
 	s, err := pyhost.NewSession([]string{lib})
 	if err != nil {
 		o.exc = "SETUP:" + err.Error()
@@ -432,7 +443,10 @@ func runProgram(src string, code *py.Code, lib string) (o ctxOut) {
 		}
 		o.trace = s.Trace
 	}()
-	if code == nil {
+	if file != "" {
+		_, err := py.RunFile(s.Ctx, file, py.CompileOpts{}, nil)
+		o.exc = pyhost.ExcClass(err)
+	} else if code == nil {
 		o.exc = s.Run(src, "<prog>")
 	} else {
 		_, err := s.Ctx.RunCode(code, s.Main.Globals, s.Main.Globals, nil)
@@ -458,8 +472,25 @@ func (Engine) Exec(sci interface{}, opt harness.ExecOpts) *harness.Outcome {
 			srcs[i] = p.Render()
 		}
 	}
+	place := func(i int) (lib, marker, file string) {
+		if sc.RelPaths {
+			d, m := projOf(i)
+			// relative to the simulated working directory /simcwd (the resolver
+			// re-roots absolute path names given to RunFile)
+			return ".", m, strings.TrimPrefix(d, "/simcwd/") + "/main.py"
+		}
+		l, m := libOf(i)
+		return l, m, ""
+	}
+	if sc.RelPaths {
+		for i := range srcs {
+			d, m := projOf(i)
+			fs.AddFile(d+"/shm.py", shmSrc(m))
+			fs.AddFile(d+"/main.py", srcs[i])
+		}
+	}
 	var shared *py.Code
-	if sc.SharedCode {
+	if sc.SharedCode && !sc.RelPaths {
 		c, err := py.Compile(srcs[0], "<prog>", py.ExecMode, 0, true)
 		if err != nil {
 			out.Infra = "compile shared program: " + err.Error()
@@ -474,8 +505,8 @@ func (Engine) Exec(sci interface{}, opt harness.ExecOpts) *harness.Outcome {
 	for i := range srcs {
 		i := i
 		sim := simrt.New(simrt.Config{MaxSteps: 20000000, Order: sc.Order})
-		lib, _ := libOf(i)
-		sim.Spawn("solo", func() { solo[i] = runProgram(srcs[i], shared, lib) })
+		lib, _, file := place(i)
+		sim.Spawn("solo", func() { solo[i] = runProgram(srcs[i], shared, lib, file) })
 		res := sim.Run()
 		out.Steps += res.Steps
 		if len(res.Panics) > 0 || res.Capped {
@@ -495,8 +526,8 @@ func (Engine) Exec(sci interface{}, opt harness.ExecOpts) *harness.Outcome {
 	sim := simrt.New(simrt.Config{MaxSteps: 60000000, Sched: sched, Order: sc.Order, KeepLog: opt.KeepLog})
 	for i := range srcs {
 		i := i
-		lib, _ := libOf(i)
-		sim.Spawn(fmt.Sprintf("ctx%d", i), func() { inter[i] = runProgram(srcs[i], shared, lib) })
+		lib, _, file := place(i)
+		sim.Spawn(fmt.Sprintf("ctx%d", i), func() { inter[i] = runProgram(srcs[i], shared, lib, file) })
 	}
 	res := sim.Run()
 	after := fingerprint()
@@ -538,14 +569,14 @@ func (Engine) Exec(sci interface{}, opt harness.ExecOpts) *harness.Outcome {
 		if sc.SharedCode {
 			prog = sc.Progs[0]
 		}
-		lib, marker := libOf(i)
+		lib, marker, _ := place(i)
 		want := expectedReads(prog, lib, marker)
 		if loc, d := checkAgainstModel(solo[i].trace, want); d != "" {
-			out.Violate("context-observes-another-context", "model|solo|"+loc, "context %d, run ALONE (after other contexts of this process had run): %s", i, d)
+			out.Violate("context-observes-another-context", "model|solo|"+loc, "context %d, run ALONE (after other contexts of this process had run): %s (program ended with %q)", i, d, solo[i].exc)
 			continue
 		}
 		if loc, d := checkAgainstModel(inter[i].trace, want); d != "" {
-			out.Violate("context-observes-another-context", "model|"+loc, "context %d beside %d other context(s): %s", i, len(srcs)-1, d)
+			out.Violate("context-observes-another-context", "model|"+loc, "context %d beside %d other context(s): %s (program ended with %q)", i, len(srcs)-1, d, inter[i].exc)
 			continue
 		}
 		if d := pyhost.DiffTrace(inter[i].trace, solo[i].trace); d != "" || inter[i].exc != solo[i].exc {
